@@ -375,6 +375,7 @@ func (u *Unit) evalIdent(st *State, id *ast.Ident) Val {
 			return u.deref(st, Val{T: cell.T, Ty: types.NewPointer(o.Type()), So: "Int"}, token.NoPos)
 		}
 		if v, ok := st.vars[o]; ok {
+			u.closureMeaning(st, o, v)
 			return v
 		}
 		if o.Pkg() != nil && o.Parent() == o.Pkg().Scope() {
@@ -384,6 +385,7 @@ func (u *Unit) evalIdent(st *State, id *ast.Ident) Val {
 		v := u.mkVal(u.fresh(o.Name(), u.sortOf(o.Type())), o.Type())
 		u.warnings = append(u.warnings, fmt.Sprintf("%s: variable %s read before binding (treated as arbitrary)", u.posStr(id.Pos()), o.Name()))
 		st.vars[o] = v
+		u.closureMeaning(st, o, v)
 		return v
 	case *types.Func:
 		// function value
@@ -1123,6 +1125,9 @@ func (u *Unit) typeAssertVal(st *State, v Val, t types.Type, commaOk bool, pos t
 	_, unbox, tid := u.sc.boxFns(t)
 	okT := sEq(app("dyntype", v.T), strconv.Itoa(tid))
 	res := Val{T: app(unbox, v.T), Ty: t, So: u.sortOf(t)}
+	if inv := u.typeInv(res); inv != "true" {
+		st.assume(sImp(okT, inv))
+	}
 	if !commaOk {
 		if u.contract == nil || !u.contract.MayPanic {
 			u.oblige("nopanic", "assert."+u.safeLabel("assert"), pos, st, okT, "type assertion holds")
